@@ -11,7 +11,7 @@ TRUSTED = ["Spec.Evm (Lean reference interpreter); z3 only as a search aid for u
 ASSUMPTIONS = ["documented modelling assumptions are excluded as the property says: hash range/injectivity, balances <= 2^128",
                "gas-dependent instructions are not generated"]
 
-FEATURES = {"calls": True, "create": True, "static": True, "value_in_static": False}
+FEATURES = {"calls": True, "create": True, "static": True, "symbolic_target": True, "value_in_static": False}
 CFGS = [{}, {"loop": 3}, {"loop": 1}, {"solver_timeout_branching": 0}, {"solver_timeout_branching": 1000},
         {"storage_layout": "generic"}]
 
